@@ -42,7 +42,14 @@ def run_check(pid: str, tier: str, program=None, quiet: bool = False) -> "tuple[
     mod = importlib.import_module(f"vstatic.checks.{pid}")
     P = program or Program()
     ctx = Context(pid, tier, P, quiet=quiet)
-    mod.run(ctx)
+    from .core.program import AnalysisError
+    try:
+        mod.run(ctx)
+    except AnalysisError as e:
+        # what was already found stands; the rules that could not read the code are reported next to it
+        if not ctx.violations:
+            raise
+        ctx.shortfalls.append(f"a later rule could not read the code: {e}")
     return 0, ctx
 
 
